@@ -241,6 +241,26 @@ class ParserCorr(Corr):
                     same = same and bool(a == b2 and hash(a) == hash(b2) and a.src is b2.src and a.dst is b2.dst)
                 except Exception:
                     same = False
+            # ... and a registry (TransformDict) must answer a key spelled by strings exactly as the one spelled by members, through every
+            # read / write entry point that takes a key: get, [], transform, []=, del
+            try:
+                from perception_eval.common.transform import HomogeneousMatrix, TransformDict
+                m_fwd = HomogeneousMatrix((1.0, 2.0, 3.0), (1.0, 0.0, 0.0, 0.0), src=E[out["key"]], dst=FrameID.MAP)
+                td = TransformDict([m_fwd])
+                ref = td.get(TransformKey(E[out["key"]], FrameID.MAP))
+                same = same and ref is m_fwd
+                for key in ((case["input"], "map"), (case["input"], FrameID.MAP), (E[out["key"]], "map"), [case["input"], "map"],
+                            TransformKey(case["input"], "map")):
+                    same = same and td.get(key) is m_fwd and td[key] is m_fwd
+                    if E[out["key"]] is not FrameID.MAP:
+                        same = same and [float(v) for v in td.transform(key, (0.0, 0.0, 0.0))] == [1.0, 2.0, 3.0]
+                td2 = TransformDict()
+                td2[(case["input"], "map")] = m_fwd
+                same = same and td2.get((E[out["key"]], FrameID.MAP)) is m_fwd and len(td2) == 1
+                del td2[(case["input"], FrameID.MAP)]
+                same = same and len(td2) == 0
+            except Exception:
+                same = False
             out["same_as_enum_spelling"] = same
         return out
 
